@@ -4,6 +4,7 @@ import SwiftMT.Calendar
 import SwiftMT.Amount
 import SwiftMT.Headers
 import SwiftMT.Classify
+import SwiftMT.Tokeniser
 import Driver.Hex
 /-
 Line-protocol driver over the executable model: one request per line on stdin, one answer per line on
@@ -77,6 +78,40 @@ def mpRun (s : PState) (ops : List String) : List String :=
   | [] => []
   | op :: rest => let (o, s') := mpOp s op; o :: mpRun s' rest
 
+/-- canonical rendering of the field map: tags sorted (bytewise), occurrences in input order -/
+def canonToks (toks : List Tok) : String :=
+  if toks.isEmpty then "-" else
+  let tags := (toks.map (fun t => hex t.tag)).eraseDups
+  let sorted := tags.toArray.qsort (· < ·) |>.toList
+  ";".intercalate (sorted.map (fun tg =>
+    tg ++ "=" ++ ",".intercalate ((toks.filter (fun t => hex t.tag == tg)).map (fun t => s!"{hex t.value}@{t.stamp}"))))
+
+def parseVals (s : String) : List (String × List (List Char × Nat)) :=
+  (s.splitOn ";").filterMap (fun grp =>
+    match grp.splitOn "=" with
+    | [t, vs] =>
+      let vals := if vs == "-" then [] else (vs.splitOn ",").filterMap (fun v =>
+        match v.splitOn "@" with
+        | [a, b] => match unhex a, b.toNat? with | some a, some b => some (a, b) | _, _ => none
+        | _ => none)
+      some (t, vals)
+    | _ => none)
+
+/-- the tracker keeps one consumed set per tag -/
+def trkRun (vals : List (String × List (List Char × Nat))) (reqs : List String) (st : List (String × List Nat)) : List String :=
+  match reqs with
+  | [] => []
+  | r :: rest =>
+    let get (t : String) : List Nat := ((st.find? (·.1 == t)).map (·.2)).getD []
+    let put (t : String) (c : List Nat) : List (String × List Nat) := (t, c) :: st.filter (·.1 != t)
+    match r.splitOn ":" with
+    | ["n", t] =>
+      let vs := ((vals.find? (·.1 == t)).map (·.2)).getD []
+      let (o, c') := takeNext (get t) vs
+      (match o with | some (v, p) => s!"{hex v}@{p}" | none => "none") :: trkRun vals rest (put t c')
+    | ["m", t, p] => "ok" :: trkRun vals rest (put t ((p.toNat?.getD 0) :: get t))
+    | _ => ["bad-op"]
+
 def handle (args : List String) : String :=
   match args with
   | "c12" :: rest => c12 rest
@@ -127,6 +162,10 @@ def handle (args : List String) : String :=
       let x : ClsInput := ⟨ty, ls, mur, flag, sb == "1", stp == "1"⟩
       s!"{msgReject x} {msgReturn x} {msgCover x} {msgStp x} {pluginMethod x}"
     | _, _, _, _ => "bad-op"
+  | ["tok", i] => match unhex i with
+    | some t => (match tokenise t with | some toks => s!"ok {canonToks toks}" | none => "err")
+    | none => "bad-op"
+  | "trk" :: vals :: reqs => ";".intercalate (trkRun (parseVals vals) reqs [])
   | "mp" :: i :: ops => match unhex i with
     | some input => ";".intercalate (mpRun (PState.init input) ops)
     | none => "bad-op"
